@@ -92,3 +92,18 @@ declare_class(
 )
 # a filesystem path: ghost existence and modification time of the file it names
 declare_class("Path", fields={"g_exists": BOOL, "g_mtime": REAL})
+declare_class(
+    "ScaffoldNamer",
+    fields={
+        "autosome_prefix": STR,
+        "current_scaffold_name": TOpt(STR),
+        "current_rank": TOpt(INT),
+        "current_haplotype": TOpt(STR),
+        "haplotig_n": INT,
+        "unloc_n": INT,
+        "target_tags": BOOL,
+        "primary_haplotype": TOpt(STR),
+        "haplotig_scaffolds": TList(TRef("Scaffold")),
+        "unloc_scaffolds": TList(TRef("Scaffold")),
+    },
+)
